@@ -1231,6 +1231,9 @@ func (e *Exec) execGo(s *ast.GoStmt) {
 			evArgs = append([]Val{f.Recv}, args...)
 		}
 		e.recordCallEvent(s.Call, evArgs, nil)
+		if site, ok := e.callOrd[s.Call]; ok {
+			e.st.vars[fmt.Sprintf("spawned:%s#%d", site.Name, site.K)] = bv(tTrue)
+		}
 	}
 	if lit, ok := s.Call.Fun.(*ast.FuncLit); ok {
 		// spawn-requires: the preconditions of a goroutine body with its own contract hold when it is started
